@@ -75,6 +75,13 @@ def strat_load(draw, tier):
                          "targets": targets})
     if not amap:
         amap = [{"size": 8, "fill": 1, "targets": {"0,0": [1]}}]
+    if len(amap) >= 2 and draw(st.integers(0, 3)) == 0:
+        # a map assembled from several sources names one and the same file
+        # under two spellings (with ./, through a symbolic link)
+        j = draw(st.integers(1, len(amap) - 1))
+        amap[j]["alias_of"] = draw(st.integers(0, j - 1))
+        amap[j]["spelling"] = draw(st.sampled_from(["dot", "symlink",
+                                                    "dotdot"]))
     n_tries = draw(st.sampled_from([0, 1, 2, 2, 3]))
     nfills = (n_tries + 2) * len(amap)
     involved = sorted(set(k for a in amap for k in a["targets"]))
@@ -176,8 +183,23 @@ def check_load(case):
             path = os.path.join(tmp, "app%d.aplx" % i)
             img = bytes((a["fill"] + 3 * j + i) & 0xff
                         for j in range(a["size"]))
-            with open(path, "wb") as f:
-                f.write(img)
+            k = a.get("alias_of")
+            while k is not None and case["map"][k].get("alias_of") is not None:
+                k = case["map"][k]["alias_of"]
+            if k is not None:
+                # another spelling of the file of entry k
+                img = images[os.path.join(tmp, "app%d.aplx" % k)]
+                if a["spelling"] == "dot":
+                    path = os.path.join(tmp, ".", "app%d.aplx" % k)
+                elif a["spelling"] == "dotdot":
+                    path = os.path.join(tmp, "sub%d" % i, "..",
+                                        "app%d.aplx" % k)
+                    os.mkdir(os.path.join(tmp, "sub%d" % i))
+                else:
+                    os.symlink(os.path.join(tmp, "app%d.aplx" % k), path)
+            else:
+                with open(path, "wb") as f:
+                    f.write(img)
             images[path] = img
             amap[path] = dict((tuple(map(int, k.split(","))), set(v))
                               for k, v in a["targets"].items())
@@ -350,6 +372,9 @@ def check_load(case):
                 "documented": error is not None,
                 "classes": cls + (["missed-a-fill"] if missed_any else []) +
                            (["busy-target"] if case.get("busy") else []) +
+                           (["one-file-two-spellings"] if any(
+                               a.get("alias_of") is not None
+                               for a in case["map"]) else []) +
                            (["wait-by-context"] if case["style"] == "context"
                             and "wait" in case.get("ctx", []) and
                             case["wait"] is not None else []) +
